@@ -95,6 +95,8 @@ pub const RK_BUFREADER: u64 = 3;
 pub const RK_CHAIN: u64 = 4;
 /// SimSource wrapped in std::io::Take with limit = `bufcap` (callers pass the limit there)
 pub const RK_TAKE: u64 = 5;
+/// SimSource whose every read/fill_buf call is a fault point (also while bytes are exposed)
+pub const RK_SIM_ANYCALL: u64 = 6;
 
 #[derive(Clone, Copy, Debug, Default)]
 pub struct OptSpec {
@@ -405,6 +407,7 @@ pub fn run_with_reader<W: Write>(
         }
         _ => {
             let mut r = SimSource::new(data, src_script, src_faults);
+            r.any_call = rk == RK_SIM_ANYCALL;
             let v = go!(&mut r);
             let rep = r.report();
             (
